@@ -1474,21 +1474,27 @@ class Gen(object):
         self.sub_label = {}
         self.cur_sub = None
         self.features = set()
+        self.ncall = 0
         self.sfx = ""                      # loop variables and counters are private to a routine (main / each subroutine)
 
     # -- helpers
     def avoid(self, what):
         self.avoided[what] = self.avoided.get(what, 0) + 1
 
+    # Hypothesis-backed random generators favour small integers (and "simple" floats such as 0.0).  Choices between
+    # alternatives are therefore rotated by a call counter, so that no alternative is systematically preferred.
+    def sel(self, n):
+        self.ncall += 1
+        return (self.r.randint(0, n) + self.ncall * 7) % (n + 1)
+
     def chance(self, p):
-        # integers, not random(): Hypothesis-backed generators favour "simple" floats such as 0.0
-        return self.r.randint(0, 999) < p * 1000
+        return self.sel(999) < p * 1000
 
     def pick(self, seq):
-        return seq[self.r.randint(0, len(seq) - 1)]
+        return seq[self.sel(len(seq) - 1)]
 
     def kw(self, w):
-        m = self.r.randint(0, 9)
+        m = self.sel(9)
         if m < 6:
             return w
         if m < 8:
@@ -1498,7 +1504,7 @@ class Gen(object):
         return "".join(c.lower() if self.r.randint(0, 1) else c for c in w)
 
     def name(self, n):
-        m = self.r.randint(0, 7)
+        m = self.sel(7)
         if m < 5:
             return n
         if m == 5:
@@ -1523,7 +1529,7 @@ class Gen(object):
     def sp(self, op):
         if op.isalpha():
             return " " + self.kw(op) + " "
-        m = self.r.randint(0, 5)
+        m = self.sel(5)
         return " " + op + " " if m < 4 else op
 
     # -- literals
@@ -1532,7 +1538,7 @@ class Gen(object):
         if v < 0:
             return Nd("-" + str(-v), P_NEG, v, v, True)
         t = str(v)
-        m = self.r.randint(0, 11)
+        m = self.sel(11)
         if m == 0:
             t = t + "."
         elif m == 1:
@@ -1542,7 +1548,7 @@ class Gen(object):
         return Nd(t, P_ATOM, v, v, True)
 
     def pos_lit(self):
-        m = self.r.randint(0, 6)
+        m = self.sel(6)
         if m == 0:
             v = self.r.randint(1, 9)
             return Nd(str(v), P_ATOM, v, v, True)
@@ -1559,7 +1565,7 @@ class Gen(object):
             if v <= 0:
                 v = 0.5
         t = _fmt_num(v)
-        k = self.r.randint(0, 9)
+        k = self.sel(9)
         if k == 0 and t.startswith("0."):
             t = t[1:]
         elif k == 1 and "e" not in t:
@@ -1655,7 +1661,7 @@ class Gen(object):
 
     # -- numeric expressions
     def int_atom(self):
-        c = self.r.randint(0, 9)
+        c = self.sel(9)
         if c < 3:
             return self.int_lit(0, self.pick([3, 9, 20, 100]))
         if c < 5 and (self.loopvars or self.counters):
@@ -1673,7 +1679,7 @@ class Gen(object):
     def int_expr(self, d):
         if d <= 0:
             return self.int_atom()
-        c = self.r.randint(0, 19)
+        c = self.sel(19)
         if c < 3:
             return self.int_atom()
         if c < 6:
@@ -1720,7 +1726,7 @@ class Gen(object):
             return Nd(self.kw(f) + "(" + a.txt + ")", P_ATOM, math.floor(a.lo), math.ceil(a.hi), True)
         if c == 13:
             s = self.str_expr(d - 1)
-            k = self.r.randint(0, 2)
+            k = self.sel(2)
             if k == 0:
                 return Nd(self.kw("LEN") + "(" + s.txt + ")", P_ATOM, s.lmin, s.lmax, True)
             if k == 1:
@@ -1751,7 +1757,7 @@ class Gen(object):
 
     def relation(self, d):
         op = self.pick(["<", ">", "<=", ">=", "=", "<>"])
-        c = self.r.randint(0, 9)
+        c = self.sel(9)
         if c < 2:
             a, b = self.str_expr(d), self.str_expr(d)
             return Nd(self.at(a, P_ADD) + self.sp(op) + self.at(b, P_ADD), P_REL, 0, 1, True)
@@ -1800,7 +1806,7 @@ class Gen(object):
         return Nd(lt + self.sp(op) + rt, prec, lo, hi, True, op=op)
 
     def condition(self, d):
-        c = self.r.randint(0, 9)
+        c = self.sel(9)
         if c < 6:
             return self.relation(d)
         if c < 9:
@@ -1808,7 +1814,7 @@ class Gen(object):
         return self.clean(self.int_expr(d))
 
     def pos_expr(self, d):
-        c = self.r.randint(0, 13) if d > 0 else self.r.randint(0, 2)
+        c = self.sel(13) if d > 0 else self.sel(2)
         if c < 2:
             return self.pos_lit()
         if c == 2:
@@ -1873,7 +1879,7 @@ class Gen(object):
         if a.hi > 1e4 or a.lo < 1e-4:
             self.avoid("fit_real_magnitude")
             a = Nd("1" + self.sp("+") + self.kw("ABS") + "(" + self.kw("ARCTAN") + "(" + a.txt + "))", P_ADD, 1.0, 2.5708)
-        c = self.r.randint(0, 5)
+        c = self.sel(5)
         if c < 2:
             e = self.int_lit(0, 4)
         elif c == 2:
@@ -1894,7 +1900,7 @@ class Gen(object):
         return Nd(bt + self.sp("^") + et, P_POW, min(vs), max(vs))
 
     def real_atom(self):
-        c = self.r.randint(0, 9)
+        c = self.sel(9)
         if c < 3:
             return self.real_lit()
         if c < 6:
@@ -1914,7 +1920,7 @@ class Gen(object):
     def real_expr(self, d):
         if d <= 0:
             return self.real_atom()
-        c = self.r.randint(0, 23)
+        c = self.sel(23)
         if c < 3:
             return self.real_atom()
         if c < 5:
@@ -1994,7 +2000,7 @@ class Gen(object):
         return self.real_atom()
 
     def num_expr(self, d):
-        c = self.r.randint(0, 9)
+        c = self.sel(9)
         if c < 3:
             return self.int_expr(d)
         if c < 5:
@@ -2003,7 +2009,7 @@ class Gen(object):
 
     def subscript(self, n):
         """subscript text valid for an array DIMensioned (n): 0..n"""
-        c = self.r.randint(0, 5)
+        c = self.sel(5)
         if c < 2:
             return str(self.r.randint(0, n))
         cands = [(nm, v) for nm, v in self.loopvars.items() if v[2] and v[0] >= 0 and v[1] <= n] + \
@@ -2029,7 +2035,7 @@ class Gen(object):
         return s
 
     def str_atom(self):
-        c = self.r.randint(0, 9)
+        c = self.sel(9)
         if c < 4:
             return self.str_lit(0, self.pick([1, 3, 8, 14]))
         if c < 8:
@@ -2042,7 +2048,7 @@ class Gen(object):
     def str_expr(self, d):
         if d <= 0:
             return self.str_atom()
-        c = self.r.randint(0, 15)
+        c = self.sel(15)
         if c < 3:
             return self.str_atom()
         if c < 5:
@@ -2065,7 +2071,7 @@ class Gen(object):
             if s.prec != P_ATOM or "(" in s.txt:
                 s = self.str_atom()
             ln_ = self.kw("LEN") + "(" + s.txt + ")"
-            k = self.r.randint(0, 3)
+            k = self.sel(3)
             if k == 0:
                 i = self.clean(self.fit_int(self.int_expr(1), 0, 10 ** 6))
                 start = "1" + self.sp("+") + self.kw("FLOOR") + "((" + self.at(i, P_MUL + 1) + self.sp("MOD") + "(" + ln_ + self.sp("+") + "1))" + self.sp("+") + "0.5)"
@@ -2117,7 +2123,7 @@ class Gen(object):
 
     # -- statements: every method returns a list of line items  [label or None, text]
     def st_assign(self, d):
-        c = self.r.randint(0, 11)
+        c = self.sel(11)
         let = self.kw("LET") + " " if self.chance(0.15) else ""
         eq = self.pick([" = ", " = ", "=", " =", "= "])
         if c < 3:
@@ -2169,7 +2175,7 @@ class Gen(object):
             return self.st_assign(d)
         items = []
         for _ in range(n):
-            c = self.r.randint(0, 9)
+            c = self.sel(9)
             if c < 3:
                 items.append(self.int_expr(d).txt)
             elif c < 7:
@@ -2198,7 +2204,7 @@ class Gen(object):
         return self.kw("READ") + " " + ", ".join(vs)
 
     def simple(self, d):
-        c = self.r.randint(0, 19)
+        c = self.sel(19)
         if c < 8:
             return self.st_assign(d)
         if c < 14:
@@ -2236,7 +2242,7 @@ class Gen(object):
         return out
 
     def stmt(self, depth, d):
-        c = self.r.randint(0, 29)
+        c = self.sel(29)
         if self.mult * 4 > 3000 or depth <= 0:
             c = c % 14
         if c < 9:
@@ -2270,7 +2276,7 @@ class Gen(object):
         """IF with line numbers: IF c THEN <else-label> / then-part / GOTO end / else-part / end"""
         c = self.condition(d)
         l_else, l_end = self.label(), self.label()
-        form = self.r.randint(0, 3)
+        form = self.sel(3)
         self.features.add("if_lineno")
         out = []
         if form == 0:
@@ -2297,7 +2303,7 @@ class Gen(object):
         if not free:
             return [self.simple_line(d)]
         v = self.pick(free)
-        form = self.r.randint(0, 9)
+        form = self.sel(9)
         isint = True
         if form < 4:
             a = self.r.randint(-3, 5)
@@ -2369,9 +2375,9 @@ class Gen(object):
         w = self.new_counter()
         if w is None:
             return [self.simple_line(d)]
-        k = self.r.randint(0, 5)
+        k = self.sel(5)
         self.features.add("while")
-        form = self.r.randint(0, 2)
+        form = self.sel(2)
         if form == 0:
             init = "%s = %d" % (self.name(w), k)
             cond = self.name(w) + self.sp(">") + "0"
